@@ -122,13 +122,16 @@ Definition pred_fv (s : sel) (h : volhdr) : bool :=
 (* Find.Visit.  [cur] is v.currentFile; the result is (v.Matches contributed, v.currentFile after).
    The File case works on a clone v2 and merges v2.Matches; the visitor it was called on keeps its
    currentFile. *)
-Fixpoint find_node (s : sel) (n : node) (cur : option node) {struct n} : list node * option node :=
+Section Find.
+Variable s : sel.
+
+Fixpoint find_node (n : node) (cur : option node) {struct n} : list node * option node :=
   let find_list :=
     fix find_list (l : list node) (cur : option node) : list node * option node :=
       match l with
       | [] => ([], cur)
       | x :: r =>
-        let '(m1, c1) := find_node s x cur in
+        let '(m1, c1) := find_node x cur in
         let '(m2, c2) := find_list r c1 in
         (m1 ++ m2, c2)
       end in
@@ -148,14 +151,16 @@ Fixpoint find_node (s : sel) (n : node) (cur : option node) {struct n} : list no
   | NPad _ _ => ([], cur)
   end.
 
-Fixpoint find_list (s : sel) (l : list node) (cur : option node) : list node * option node :=
+Fixpoint find_list (l : list node) (cur : option node) : list node * option node :=
   match l with
   | [] => ([], cur)
   | x :: r =>
-    let '(m1, c1) := find_node s x cur in
-    let '(m2, c2) := find_list s r c1 in
+    let '(m1, c1) := find_node x cur in
+    let '(m2, c2) := find_list r c1 in
     (m1 ++ m2, c2)
   end.
+
+End Find.
 
 (* Find.Run on the BIOS region *)
 Definition find_elems (s : sel) (elems : list node) : list node := fst (find_list s elems None).
@@ -436,89 +441,51 @@ Definition asm_vol_v (fx : bool) (pol : Z) (ffs3 : bool) (h : volhdr) (buf : byt
     end
     end.
 
-(* Assemble.Visit: Ffs.asm with the volume case above *)
-Fixpoint asm_v (fx : bool) (n : node) (st : ast) {struct n} : outcome (node * ast) :=
+(* Assemble.Visit: Ffs.asm with the volume case above (Ffs.vol_asm / Ffs.asm with [asm_vol_v]) *)
+Section AsmV.
+Variable fx : bool.
+
+Definition vol_asm_v (h : volhdr) (buf : bytes) (kids' : list node) (st1 : ast) : outcome (node * ast) :=
+  let '(pol, ffs3) := st1 in
+  do hb <- asm_vol_v fx pol ffs3 h buf kids';
+  let '(h', nb) := hb in
+  Ok (NVol h' nb kids', (pol, if vol_verbatim fx h kids' then ffs3 else false)).
+
+Fixpoint asm_v (n : node) (st : ast) {struct n} : outcome (node * ast) :=
   let asm_list :=
     fix asm_list (l : list node) (st : ast) : outcome (list node * ast) :=
       match l with
       | [] => Ok ([], st)
       | x :: r =>
-        do xs <- asm_v fx x st; let '(x', st1) := xs in
+        do xs <- asm_v x st; let '(x', st1) := xs in
         do rs <- asm_list r st1; let '(r', st2) := rs in
         Ok (x' :: r', st2)
       end in
   match n with
   | NPad off b => Ok (NPad off b, st)
   | NSec h buf kids =>
-    do ks <- asm_list kids st; let '(kids', st1) := ks in
-    let '(pol, ffs3) := st1 in
-    match kids' with
-    | [] =>
-      let t := s_type h in
-      do body <-
-        (if t =? 21 then Ok (Some (s2u (s_name h)))
-         else if t =? 20 then Ok (Some (le_enc 2 (s_build h) ++ s2u (s_version h)))
-         else if (t =? 19) || (t =? 27) || (t =? 28) then
-           do b <- emit_depex (match s_depex h with Some l => l | None => [] end); Ok (Some b)
-         else Ok None);
-      match body with
-      | None => Ok (NSec h buf [], st1)
-      | Some b =>
-        let '(h', nb) := gen_sec_header h b in
-        Ok (NSec h' nb [], (pol, ffs3 || (16777215 <? s_ext h')))
-      end
-    | _ =>
-      let data := join4 [] (map node_buf kids') in
-      do body <-
-        (if s_type h =? 2 then
-           match s_gd h with
-           | None => Panic 301
-           | Some g =>
-             if negb (Z.land (gd_attrs g) 1 =? 0) then
-               if codec_kind (gd_guid g) =? 0 then Err E_CODEC else
-               match enc (codec_kind (gd_guid g)) data with
-               | Some c => Ok c
-               | None => Err E_CODEC
-               end
-             else Ok buf
-           end
-         else Ok data);
-      let '(h', nb) := gen_sec_header h body in
-      Ok (NSec h' nb kids', (pol, ffs3 || (16777215 <? s_ext h')))
-    end
+    do ks <- asm_list kids st; let '(kids', st1) := ks in sec_asm enc s2u h buf kids' st1
   | NFile h buf kids =>
-    do ks <- asm_list kids st; let '(kids', st1) := ks in
-    let '(pol, ffs3) := st1 in
-    match kids', f_nvar h with
-    | [], None => Ok (NFile h buf [], st1)
-    | _, _ =>
-      let data := match f_nvar h with
-                  | Some nb => nb
-                  | None => join4 [] (map node_buf kids') end in
-      let '(ext, attr) := set_size (f_attr h) (24 + zlen data) true in
-      let '(h', nb) := checksum_and_assemble h ext attr data in
-      Ok (NFile h' nb kids', (pol, ffs3 || (16777215 <? ext)))
-    end
+    do ks <- asm_list kids st; let '(kids', st1) := ks in file_asm h buf kids' st1
   | NVol h buf kids =>
     match set_polarity (fst st) (fv_polarity (v_attrs h)) with
     | None => Err E_POLARITY
     | Some pol0 =>
-      do ks <- asm_list kids (pol0, snd st); let '(kids', st1) := ks in
-      let '(pol, ffs3) := st1 in
-      do hb <- asm_vol_v fx pol ffs3 h buf kids';
-      let '(h', nb) := hb in
-      Ok (NVol h' nb kids', (pol, if vol_verbatim fx h kids' then ffs3 else false))
+      do ks <- asm_list kids (pol0, false); let '(kids', st1) := ks in
+      do r <- vol_asm_v h buf kids' st1; let '(n', st2) := r in Ok (n', (fst st2, snd st))
     end
   end.
 
-Fixpoint asm_elems_v (fx : bool) (l : list node) (st : ast) : outcome (list node * ast) :=
+Fixpoint asm_elems_v (l : list node) (st : ast) : outcome (list node * ast) :=
   match l with
   | [] => Ok ([], st)
   | x :: r =>
-    do xs <- asm_v fx x st; let '(x', st1) := xs in
-    do rs <- asm_elems_v fx r st1; let '(r', st2) := rs in
+    do xs <- asm_v x st; let '(x', st1) := xs in
+    do rs <- asm_elems_v r st1; let '(r', st2) := rs in
     Ok (x' :: r', st2)
   end.
+
+End AsmV.
 
 Definition asm_bios_v (fx : bool) (elems : list node) (length : Z) (st : ast)
   : outcome (list node * bytes * ast) :=
